@@ -82,6 +82,17 @@ def isSynth504 (x : Ex) : Bool :=
 def first? {α} (l : List (Option α)) : Option α := l.findSome? id
 
 
+/-- may the 304 `rp`, received for the request `reqH` by a call carrying `callH`, be written into the
+    stored response with header `stored`? Not when the request or the 304 carries no-store (RFC 9111
+    §5.2.1.5, §5.2.2.5: no part of the response is stored), and not when it is not a validation result
+    for that stored response (`Spec.isValidationOf`). -/
+def freshenForbidden (reqH callH stored : Header) (rp : Resp) : Option String :=
+  if Spec.hasDirective Spec.rfc reqH (str% "no-store") then some "the request carries no-store"
+  else if Spec.hasDirective Spec.rfc rp.header (str% "no-store") then some "the 304 carries no-store"
+  else if !Spec.isValidationOf stored callH then
+    some s!"it answers the client's own precondition (request [{showHdrs callH}], stored validators [{showHdrs (stored.filter fun p => p.1 = sETag || p.1 = sLastModified)}])"
+  else none
+
 /-! ### the stored response as the ORIGIN's replies define it (ghost)
 
 Monitors that read the stored response from the implementation's own store see what the cache wrote,
@@ -116,7 +127,10 @@ def Hist.ghostAt (h : Hist) (n : Nat) : Option Spec.Stored :=
               if rp.kind != "resp" then none
               else if rp.resp.status = 304 then
                 ((alookup e.key m).join).map fun old =>
-                  if !Spec.isValidationOf old.header c.hdr then old else   -- not a validation result: nothing changes
+                  -- not a validation result, or no-store on either side: nothing may change
+                  if (match h.reqs.find? (·.n = e.n) with
+                      | some ri => (freshenForbidden ri.req.header c.hdr old.header rp.resp).isSome
+                      | none => !Spec.isValidationOf old.header c.hdr) then old else
                   { old with header := Spec.merge304 canonicalHeaderKey old.header (dateFixed h rp.resp.header c.t1),
                              requestTime := c.t0, responseTime := c.t1 }
               else some { status := rp.resp.status, header := dateFixed h rp.resp.header c.t1, requestTime := c.t0, responseTime := c.t1 }
@@ -219,13 +233,10 @@ def replyForbidsStoring (ri : ReqIn) (rp : ReplyIn) : Option String :=
   else if rp.bodyFail ≥ 0 && !rp.resp.body.isEmpty then some "body could not be read completely"
   else none
 
-/-- an entry write caused by a 304: the 304 must be the answer to a validation request for that entry
-    (one that carried the stored validators and no precondition of the client's own); otherwise it is
-    the origin's answer to the client and nothing of it may be written -/
+/-- an entry write caused by a 304 -/
 def notAValidation (h : Hist) (e : StoreEv) : Option String :=
-  match (h.calls e.n e.stream).getLast? with
-  | none => none
-  | some c =>
+  match (h.calls e.n e.stream).getLast?, h.reqs.find? (·.n = e.n) with
+  | some c, some ri =>
     if c.outcome != "resp" then none else
     match h.reply e.n c.k with
     | none => none
@@ -237,8 +248,9 @@ def notAValidation (h : Hist) (e : StoreEv) : Option String :=
           | _, _, _ => none) with
       | none => none
       | some old =>
-        if Spec.isValidationOf old.resp.header c.hdr then none
-        else some s!"exchange {e.n} ({e.stream}): a 304 that answers the client's own precondition (request [{showHdrs c.hdr}], stored validators [{showHdrs (old.resp.header.filter fun p => p.1 = sETag || p.1 = sLastModified)}]) was written into the stored response"
+        (freshenForbidden ri.req.header c.hdr old.resp.header rp.resp).map fun why =>
+          s!"exchange {e.n} ({e.stream}): a 304 was written into the stored response although {why}"
+  | _, _ => none
 
 def monC06 (h : Hist) : Option String :=
   first? [
